@@ -47,6 +47,10 @@ def main():
     except ImportError as e:
         print("property %s has no rule module yet: %s" % (pid, e))
         return 2
+    want = None
+    if a.replay:
+        import json
+        want = json.load(open(a.replay))["finding"]["key"]   # read first: the run rewrites out/<id>/
     try:
         rc = framework.run_property(pid, a.tier, getattr(mod, fn))
     except RuntimeError as e:
@@ -54,7 +58,6 @@ def main():
         return 2
     if a.replay:
         import json
-        want = json.load(open(a.replay))["finding"]["key"]
         outdir = os.path.join(framework.VERIF, "out", pid)
         still = False
         for fnm in os.listdir(outdir):
